@@ -71,10 +71,24 @@ class DictModel:
         return [e for k, v, e in self.writes if k == "**" and e.idx > idx]
 
 
-def dict_model(p: Path, obj: str) -> Optional[DictModel]:
-    """Abstract content of the mapping object named by placeholder `obj` (`$cN` / `$lN`) along the path."""
+def dict_model(p: Path, obj) -> Optional[DictModel]:
+    """Abstract content of the mapping object named by placeholder `obj` (`$cN` / `$lN`) along the path;
+    `obj` may also be a dict display term (a mapping built and returned in one expression)."""
     evs = p.events
     m = None
+    if isinstance(obj, ast.Dict):
+        last = evs[-1] if evs else None
+        m = DictModel("{}", obj=show(obj), created=last.idx if last is not None else 0)
+        for k, v in zip(obj.keys, obj.values):
+            if k is None:
+                m.writes.append(("**", v, last))
+                if not any(kk != "**" for kk, _, _ in m.writes) and len(m.writes) == 1:
+                    m.base = show(expand(v, evs))  # `{**base, ...}` starts from base
+            elif isinstance(k, ast.Constant):
+                m.writes.append((k.value, v, last))
+        return m
+    if not isinstance(obj, str):
+        obj = show(obj)
     for e in evs:
         if e.kind == "call" and f"$c{e.idx}" == obj:
             t = e.term
@@ -191,3 +205,44 @@ def consistent_lengths(p: Path, obj: str, candidates=(0, 1, 2, 3)) -> List[int]:
         elif isinstance(t, ast.Call) and show(t.func) == "len" and show(t.args[0]) == obj:
             facts.append(lambda L, pol=pol: (L > 0) == pol)
     return [L for L in candidates if all(f(L) for f in facts)]
+
+
+def call_value(ctx, call: ast.Call, fn) -> Optional[ast.AST]:
+    """If `call` (a raw AST call inside fn) targets one package function whose every returning path returns the same
+    term, return that term with the callee's parameters replaced by the call's arguments; else None.
+    Lets rules look *through* a small helper used inside a comprehension (which the path engine does not enter)."""
+    res = ctx.r.resolve_in(call, fn)
+    if res.how != "typed" or len(res.targets) != 1:
+        return None
+    callee = res.targets[0]
+    if isinstance(callee.node, ast.Lambda):
+        return None
+    a = callee.node.args
+    names = [x.arg for x in a.posonlyargs + a.args]
+    if callee.cls is not None and callee.parent is None and "staticmethod" not in callee.decorators and names and names[0] in ("self", "cls"):
+        names = names[1:]
+    binds = {}
+    for nm, arg in zip(names, call.args):
+        binds[nm] = arg
+    for kw in call.keywords:
+        if kw.arg:
+            binds[kw.arg] = kw.value
+    body = [st for st in callee.node.body if not (isinstance(st, ast.Expr) and isinstance(st.value, ast.Constant))]
+    if len(body) == 1 and isinstance(body[0], ast.Return) and body[0].value is not None:
+        # a one-expression helper: substitute the parameters textually (keeps conditional expressions whole)
+        import copy
+
+        class _S(ast.NodeTransformer):
+            def visit_Name(self, n):
+                return copy.deepcopy(binds[n.id]) if isinstance(n.ctx, ast.Load) and n.id in binds else n
+
+        return _S().visit(copy.deepcopy(body[0].value))
+    vals = set()
+    term = None
+    for p in ctx.paths(callee, inline=None, exc_edges="none", bindings=binds):
+        if p.kind != "return":
+            continue
+        t = expand(p.value, p.events)
+        vals.add(show(t))
+        term = t
+    return term if len(vals) == 1 else None
